@@ -241,6 +241,13 @@ class Registry:
                     self.problems.append(('REG.range', i, text, 'range %r has more than one dash' % r))
                     continue
                 low, high = r.split('-') if '-' in r else (r, r)
+                odd = [c for c in low + high if ord(c) > 126 or ord(c) < 33]
+                if odd:
+                    # numbers are looked up in their compact form (ASCII after clean()): such an endpoint matches nothing; a look-alike
+                    # dash makes one long prefix of what was meant as a range
+                    self.problems.append(('REG.range', i, text, 'endpoint of %r contains U+%04X: no compact number can match it (a look-alike of "-" '
+                                          'turns a range into a single prefix)' % (r, ord(odd[0]))))
+                    continue
                 if len(low) != len(high):
                     self.problems.append(('REG.range', i, text, 'endpoints of %r differ in length' % r))
                     continue
